@@ -32,20 +32,29 @@ OPTS = {"quick": {"path_wall": 20.0}, "thorough": {"path_wall": 30.0}}
 
 
 def check_assignment(prog, zs, dom, phi, a):
-    """None if assignment dict a (name->value) is total, in-domain and satisfies the reference formula."""
-    names = ["x%d" % i for i in range(len(prog["vars"]))]
+    """None if assignment dict a (name->value) lists exactly the NAMED variables, each in its domain, and extends to an assignment of all
+    variables that satisfies the reference formula (variables created without a name are left out of the dict by the library)."""
+    unnamed = set(prog.get("unnamed", ()))
+    named = [i for i in range(len(prog["vars"])) if i not in unnamed]
+    names = ["x%d" % i for i in named]
     if not isinstance(a, dict):
         return "not a dict: %r" % (a,)
     if set(a.keys()) != set(names):
         return "keys %r != %r" % (sorted(a.keys()), names)
-    for i, nm in enumerate(names):
+    for i, nm in zip(named, names):
         v = a[nm]
         if type(v) is not int or not (prog["vars"][i][0] <= v <= prog["vars"][i][1]):
             return "%s=%r outside its domain %r" % (nm, v, prog["vars"][i])
-    sub = [(zs[i], z3.IntVal(a[names[i]])) for i in range(len(names))]
-    ok = z3.simplify(z3.substitute(phi, *sub))
-    if not z3.is_true(ok):
-        return "constraint violated by %r" % (a,)
+    sub = [(zs[i], z3.IntVal(a["x%d" % i])) for i in named]
+    if not unnamed:
+        ok = z3.simplify(z3.substitute(phi, *sub))
+        if not z3.is_true(ok):
+            return "constraint violated by %r" % (a,)
+        return None
+    sol = z3.Solver()
+    sol.add(dom, phi, *[z == v for z, v in sub])
+    if sol.check() != z3.sat:
+        return "no value of the unnamed variables completes %r to a solution" % (a,)
     return None
 
 
@@ -53,7 +62,7 @@ def h_solve(s, programs, hint_mode):
     Status = importlib.import_module("solvor.types").Status
     pi = s.choice("program", len(programs))
     prog = programs[pi]
-    s.observe("program", {"vars": prog["vars"], "cons": [list(c) for c in prog["cons"]]})
+    s.observe("program", {"vars": prog["vars"], "cons": [list(c) for c in prog["cons"]], "unnamed": list(prog.get("unnamed", ()))})
     limit = s.int("solution_limit", 1, 4)
     zs, dom, phi = P.reference(prog)
     sols = P.solutions_of(prog)
@@ -113,7 +122,7 @@ def h_solve(s, programs, hint_mode):
 
 def items(tier, rng):
     q = tier == "quick"
-    progs = P.linear_programs(rng, 4 if q else 40) + P.global_programs(rng, 8 if q else 120, big=not q) + P.pair_programs(rng, 120 if q else 3000) + P.mixed_pair_programs(rng, 60 if q else 600) + P.zero_weight_programs() + P.sum_programs() + P.pinned_programs()
+    progs = P.linear_programs(rng, 4 if q else 40) + P.global_programs(rng, 8 if q else 120, big=not q) + P.pair_programs(rng, 120 if q else 3000) + P.mixed_pair_programs(rng, 60 if q else 600) + P.zero_weight_programs() + P.sum_programs() + P.pinned_programs() + P.unnamed_programs()
     out = []
     for ch in P.chunks(progs, 6):
         out.append({"name": "solve", "harness": "h_solve", "params": {"programs": ch, "hint_mode": "none"}})
